@@ -269,6 +269,12 @@ class C09Engine(Engine):
             _, db, h, typed = op
             f = getattr(real[db], TYPED_ADD[self.kinds[h]] if typed else "add")
             return f(real[h])
+        if k in ("add_bad", "delete_bad") and ":" in str(op[2]):
+            # a list / tuple of model objects is no supported argument either (nothing of it may be applied)
+            shape, hs = op[2].split(":")
+            seq = [real[h] for h in hs.split(",") if h]
+            arg = tuple(seq) if shape == "tuple" else seq
+            return real[op[1]].add(arg) if k == "add_bad" else real[op[1]].delete(arg)
         if k == "add_bad":
             return real[op[1]].add(bad_object(self.env, op[2]))
         if k == "delete_bad":
@@ -557,10 +563,19 @@ def draw_op(rng: random.Random, eng: C09Engine, weights: Dict[str, float]) -> Li
         return ["read", h, rng.choice(["sql", "dbml"])]
     if k == "t_ctor_foreign_idx":
         return ["t_ctor_foreign_idx", rng.choice(w.handles("column")), rng.random() < 0.5]
+    if k in ("add_bad", "delete_bad") and rng.random() < 0.4:
+        top = [h for h, d in m.items() if d["kind"] in ("table", "ref", "enum", "group", "sticky", "project")]
+        inside = [h for h in top if m[h].get("db") == db]
+        outside = [h for h in top if m[h].get("db") is None]
+        first = (outside if k == "add_bad" else inside) or top
+        seq = rng.sample(first, min(len(first), rng.randint(1, 2)))
+        if rng.random() < 0.6 and top:
+            seq.append(rng.choice(top))          # ... followed by anything (often something that would be refused)
+        return [k, db, rng.choice(["list", "tuple"]) + ":" + ",".join(seq)]
     if k == "add_bad":
-        return ["add_bad", db, rng.choice(BAD + ["none"])]
+        return ["add_bad", db, rng.choice(BAD + ["none", "list:", "tuple:"])]
     if k == "delete_bad":
-        return ["delete_bad", db, rng.choice(BAD + ["none"])]
+        return ["delete_bad", db, rng.choice(BAD + ["none", "list:", "tuple:"])]
     if k == "delete_project":
         return ["delete_project", db]
     t = rng.choice(tables)
